@@ -138,7 +138,8 @@ def build_file(x, nodes, rng, wide=False):
     seqs = (hi, lo) if x["hdr"] == 1 else (lo, hi)
     # key tables and file objects may be listed in a chain of object tables (any distribution, any order)
     return E.build(tables, fobjs, hdr_seqs=seqs, chain=rng.choice([1, 1, 2, 3]), chain_rng=rng if rng.random() < 0.7 else None,
-                   alignment=rng.choice([0x1000, 0x1000, 0x200, 0x10000, 0x100, 0x800]))
+                   alignment=rng.choice([0x1000, 0x1000, 0x200, 0x10000, 0x100, 0x800]),
+                   stale_header=rng.choice([None, None, "blank", "old-version", "other-signature"]))
 
 
 def run(ctx):
